@@ -140,7 +140,12 @@ static void do_un(vf_case *c) {
  * pairing families those towers serve; at other primes where the tower is nevertheless a field the map is not x -> x^p */
 static int pairing_prime(void) { return fp_prime_get_par_sps(NULL) != NULL || 1; }
 static const char *frb_kf(const tdesc *D) {
-	if (D->N == 16 || D->N == 48 || D->N == 54) return "L31-frobenius-constants-foreign-prime";
+	/* at the primes of the family a tower serves nothing is excused (K16 / AFG16 / FM16 for fp16, B48 for fp48, SG54 for fp54) */
+	int id = fp_param_get(), native = 0;
+	if (D->N == 16) native = id == K16_330 || id == K16_766 || id == AFG16_510 || id == AFG16_766 || id == FM16_765;
+	if (D->N == 48) native = id == B48_575;
+	if (D->N == 54) native = id == SG54_569;
+	if ((D->N == 16 || D->N == 48 || D->N == 54) && !native) return "L31-frobenius-constants-foreign-prime";
 #if WSIZE == 64 && FP_PRIME == 256
 	if ((D->N == 4 || D->N == 8) && fp_param_get() != BN_256 && fp_param_get() != SM9_256) return "L31-frobenius-constants-foreign-prime";
 #endif
@@ -281,6 +286,16 @@ static void enumerate(void) {
 	static const int IDS[] = {BN_256, SM9_256, NIST_256, SECG_256, BSI_256, SM2_256};
 #elif FP_PRIME == 381
 	static const int IDS[] = {B12_381};
+#elif FP_PRIME == 446
+	static const int IDS[] = {BN_446, B12_446};
+#elif FP_PRIME == 315
+	static const int IDS[] = {B24_315};
+#elif FP_PRIME == 330
+	static const int IDS[] = {K16_330};
+#elif FP_PRIME == 575
+	static const int IDS[] = {B48_575};
+#elif FP_PRIME == 638
+	static const int IDS[] = {K18_638};
 #else
 	static const int IDS[] = {0};
 #endif
@@ -289,7 +304,7 @@ static void enumerate(void) {
 		if (!vf_bound_on(bn)) continue;
 		mpz_set_si(sel, IDS[pi]); if (!select_prime(sel)) { vf_fail(NULL, "fp_param_set refused"); continue; }
 		for (int tid = 1; tid < NTW; tid++) { if (!TW[tid].usable) continue;
-			if (pi >= 2 && TW[tid].N > 4) continue; /* non-pairing primes: quadratic/cubic/quartic towers only */
+			if (FP_PRIME == 256 && pi >= 2 && TW[tid].N > 4) continue; /* non-pairing primes: quadratic/cubic/quartic towers only */
 			vf_dom d; vf_dom_init(&d); tower_alphabet(&d, tid);
 			int budget = vf_tier ? 3000 : (TW[tid].N <= 4 ? 400 : TW[tid].N <= 12 ? 160 : 24);
 			int st = d.n > budget ? d.n / budget : 1, pairs = TW[tid].N <= 4 ? 40 : (TW[tid].N <= 12 ? 12 : 4);
